@@ -189,8 +189,13 @@ class ECDH1PUAlgorithm(JWEAlgorithmWithTagAwareKeyAgreement):
         else:
             bit_size = self.key_size
 
+        if not isinstance(headers["epk"], dict):
+            raise ValueError('Invalid "epk" in headers')
+
         sender_pubkey = sender_key.get_op_key("wrapKey")
         epk = key.import_key(headers["epk"])
+        if epk["crv"] != key["crv"]:
+            raise ValueError('Invalid "epk" in headers: curves do not match')
         epk_pubkey = epk.get_op_key("wrapKey")
         dk = self.deliver_at_recipient(
             key, sender_pubkey, epk_pubkey, headers, bit_size, tag
